@@ -798,3 +798,13 @@ func eventDst(m map[string]interface{}) string {
 func isHeartbeat(m map[string]interface{}) bool {
 	return m["category"] == "heartbeat"
 }
+
+// debugDumpGoroutines: with VERIF_DUMP=1 (debugging a replay by hand) the stacks of all goroutines go to stderr.
+func debugDumpGoroutines() {
+	if os.Getenv("VERIF_DUMP") == "" {
+		return
+	}
+	buf := make([]byte, 4<<20)
+	n := runtime.Stack(buf, true)
+	os.Stderr.Write(buf[:n])
+}
